@@ -241,7 +241,7 @@ impl Prop for C13 {
         Describe {
             level: "exploration",
             rule: "each case = one seeded run of 2-4 complete litep2p nodes (request-response protocol) on SimNet: in a third of the runs ghost n+1 is a live peer that registers the protocol name as a raw user protocol and, after a request arrived, stays silent / closes / sends an oversize, truncated, doubled, zero-length or never-terminated-varint response (then a quarter of the requests go to it); materialised request/cancel/connect operations, fault plan (resets, half-closes, byte-offset cuts and single-bit corruption in flight, partitions, refused / black-holed / slow connects, node kill with reset or silent vanish, crash + restart with the same identity, process stalls), scheduler kind and knobs; a run is non-trivial if the scheduler had >=1 choice point (>=2 runnable tasks); distinct = distinct trace hash (scheduler decisions + every recorded event with its virtual timestamp)".into(),
-            real: vec!["Litep2p", "TransportManager", "TcpTransport/TcpConnection", "multistream-select", "Noise", "yamux", "RequestResponseProtocol + handle", "TransportService"],
+            real: vec!["Litep2p", "TransportManager", "TcpTransport/TcpConnection", "WebSocketTransport/WebSocketConnection + tokio-tungstenite (runs with the second transport)", "multistream-select", "Noise", "yamux", "RequestResponseProtocol + handle", "TransportService"],
             stub: vec!["socket layer (SimNet)", "clock (paused tokio clock mirrored into clock_gettime)", "task scheduler (seeded)", "HashMap seeds (getrandom seam)"],
             assumptions: vec![
                 "pre-emption granularity is the task poll",
